@@ -130,6 +130,38 @@ def seeded(props, only, tier_args):
     return missed
 
 
+def matrix(props, only, tier_args, seeds):
+    """Every seeded / hand-written change against every requested check, for several VERIF_SEEDs:
+    which checks catch which changes, and how reliably within the quick budget."""
+    rows = []
+    items = [("seeded/" + os.path.basename(os.path.dirname(m)), os.path.join(os.path.dirname(m), "patch.diff"))
+             for m in sorted(glob.glob(os.path.join(env.VERIF, "seeded", "*", "meta.json")))]
+    items += [("mutants/" + os.path.basename(p)[:-5], p) for p in sorted(glob.glob(os.path.join(env.VERIF, "mutants", "*.diff")))]
+    for name, patch in items:
+        if only and only not in name:
+            continue
+        row = {"change": name}
+        for prop in props:
+            hits = []
+            for seed in seeds:
+                d = scratch_repo(patch, 1)
+                rdir = tempfile.mkdtemp(prefix="selfies-replays-")
+                try:
+                    code, out = run_check(prop, {"VERIF_REPO": d, "VERIF_REPLAY_DIR": rdir, "VERIF_SEED": str(seed)},
+                                          tier_args + ["--no-evidence"])
+                finally:
+                    shutil.rmtree(d, ignore_errors=True)
+                    shutil.rmtree(rdir, ignore_errors=True)
+                cls = re.search(r"class=(\w+)", out)
+                hits.append(cls.group(1) if code == 1 and cls else ("harness" if code == 2 else "-"))
+            row[prop] = hits
+            print("matrix %-48s %s %s" % (name, prop, hits), flush=True)
+        rows.append(row)
+    with open(os.path.join(env.VERIF, "seeded", "MATRIX.json"), "w") as f:
+        json.dump({"seeds": seeds, "tier": tier_args, "rows": rows}, f, indent=1)
+    return 0
+
+
 def unchanged(props, tier_args):
     bad = 0
     for prop in props:
@@ -142,7 +174,8 @@ def unchanged(props, tier_args):
 
 def main():
     ap = argparse.ArgumentParser()
-    ap.add_argument("what", nargs="?", default="all", choices=("determinism", "mutants", "seeded", "unchanged", "all", "patch"))
+    ap.add_argument("what", nargs="?", default="all", choices=("determinism", "mutants", "seeded", "unchanged", "all", "patch", "matrix"))
+    ap.add_argument("--matrix-seeds", default="0,1,2")
     ap.add_argument("--patch", default=None)
     ap.add_argument("--props", default="C06,C07,C11,C12,C19")
     ap.add_argument("--only", default=None)
@@ -153,6 +186,8 @@ def main():
     props = a.props.split(",")
     tier_args = ["--tier", a.tier]
     bad = 0
+    if a.what == "matrix":
+        matrix(props, a.only, tier_args, [int(x) for x in a.matrix_seeds.split(",")])
     if a.what == "patch":
         for prop in props:
             if not one_mutant(os.path.basename(a.patch), prop, a.patch, 1, tier_args):
